@@ -50,6 +50,17 @@ CHECKS.update({
    text="Exploration. Structure-aware hostile datagrams (boundary-valued fields, wide ranges, lying lengths/offsets/counts, inconsistent fragments, truncation, mutation, concatenation, random bytes) interleaved with state-building valid traffic are fed to a reliable keyed reader, a best-effort no_key reader and a reliable writer; each datagram is judged for panic, disproportionate CPU time or heap growth, and afterwards a never-impersonated peer's valid traffic must be delivered in order and unaltered.",
    note="Thresholds (0.2 s CPU, 64*len+1 MiB heap, 256 MiB single request, 2 s = hang) are far from honest behaviour (microseconds, <100 KiB). Default-feature release build; cumulative growth over many datagrams and the real socket path are covered only by the sanitizer/valgrind legs when run.", ref="3/C06"),
 })
+CHECKS.update({
+ "C11": dict(engine="E-STACK/fake-participants", technique="runtime monitoring at the public API: status events of a real DomainParticipant under wire-level discovery event histories from harness-controlled remote participants, with logical barriers, against a set model and the C10 reference table",
+   text="Exploration. One real participant (Discovery thread, event loop, SPDP/SEDP readers, all real) is driven over loopback UDP by 2-3 fake remote participants that announce, re-announce and dispose endpoints, get disposed and reappear. After each event a marker announced on the same SEDP stream must be matched (logical barrier); the matched/incompatible status events drained through the public API must then equal exactly the model's set changes with correct current/total counts.",
+   note="Timeout-based participant loss is exercised under C12; a reappearing participant re-announces its endpoints; barrier timeouts are inconclusive; <=4 events per endpoint and step (status channel capacity).", ref="3/C11"),
+ "C15": dict(engine="E-CODEC/PL-CDR", technique="runtime monitoring: generated discovery values through the real PL-CDR (de)serialisers in both encodings; independent parameter-list walker inserts unknown/vendor parameters at every boundary; defaults table from RTPS 2.5",
+   text="Exploration. SpdpDiscoveredParticipantData, DiscoveredReader/Writer/TopicData, ParticipantMessageData and QosPolicies with every optional field independently present/absent: round trip equality (both encodings), unchanged result with foreign parameters of length 0-64 inserted at every boundary, RTPS defaults for absent parameters (including the lease default observed through a real DiscoveryDB in the thorough tier).",
+   note="Locally stamped fields (updated_time, last_updated) are excluded; must-understand PIDs (bit 14) may be refused; interoperability with other vendors is out of reach offline.", ref="3/C15"),
+ "C16": dict(engine="E-SEC/crypto", technique="runtime monitoring: three CryptographicBuiltin parties wired through the plugin's own key factory/exchange; round trip, tamper (named fields located by an independent walker), wrong-key and wrong-receiver oracles at payload/submessage/message level, plugin-only and through real DATA/DATAFRAG framing",
+   text="Exploration. All transformation kinds (GMAC/GCM, 128/256) with and without origin authentication at all three levels; every length 0-70 and random lengths up to 64 KiB; every named field of CryptoHeader/Content/Footer altered must be rejected, any other altered byte must not change the output; keys of another registration and missing/foreign receiver-specific MACs must be rejected; the framing leg runs payloads through MessageBuilder, serialisation, parsing and the receive-side decode path so RTPS padding is in the loop.",
+   note="Security build (cargo feature security); fabricated shared secrets (no certificates); the secure full-stack scenarios belong to C07.", ref="3/C16"),
+})
 NOT_YET = {}
 
 def main():
@@ -85,6 +96,8 @@ def main():
             {"name": "E-WIRE/Link", "path": "/verif/harness/vcheck/src/link.rs", "serves_properties": ["C02", "C05"], "kind_free_text": "WriterBench and ReaderBench joined by a drop/dup/delay link in logical time"},
             {"name": "E-CODEC", "path": "/verif/incrate/codec.rs + /verif/harness/vcheck/src/{c_codec,c_qos,qosref}.rs", "serves_properties": ["C10", "C14"], "kind_free_text": "in-crate generators over the implementation's constructors; independent walker and reference tables in the harness"},
             {"name": "E-HOSTILE", "path": "/verif/harness/vcheck/src/{hostile,c_hostile,alloc,shard}.rs", "serves_properties": ["C06"], "kind_free_text": "hostile-datagram driver over ReaderBench+WriterBench in subprocess shards with panic hook, counting allocator, CPU-time probes and watchdog"},
+            {"name": "E-STACK/fake-participants", "path": "/verif/incrate/disc.rs + /verif/harness/vcheck/src/{stk,c_stack}.rs", "serves_properties": ["C11", "C12"], "kind_free_text": "real DomainParticipant over loopback UDP against harness-controlled SPDP/SEDP speakers; public API observation; subprocess shards, one domain id each"},
+            {"name": "E-SEC", "path": "/verif/incrate/sec_*.rs + /verif/harness/vcheck/src/c_{crypto,access,auth}.rs", "serves_properties": ["C16", "C18", "C19"], "kind_free_text": "in-crate drivers of the builtin security plugins (feature security), oracles and independent walkers in the harness"},
             {"name": "E-API", "path": "/verif/harness/vcheck/src/api.rs", "serves_properties": ["C08", "C09"], "kind_free_text": "reference model of DDS sample/view/instance semantics in lock-step with a real DataReader fed through ReaderBench; subprocess shards with CPU-time watchdog for C09"},
         ],
         "checks": checks,
